@@ -243,5 +243,5 @@ def space(tier):
         if rng.random() < 0.3:
             extra["cuts"] = sorted(rng.randrange(1, 300) for _ in range(rng.randint(1, 4)))
         return make_plan(3, rng.choice(OPS if phase == "hs" else ["lan_send", "refresh"]), phase, b, rng, extra)
-    sp.add("random", 8000 if tier == "quick" else 1_000_000, rnd)
+    sp.add("random", 25000 if tier == "quick" else 1_000_000, rnd)
     return sp
